@@ -53,10 +53,10 @@ func routinesFor(base []int, r, c int, graded bool, reduced bool) []plan {
 		sym := !graded && lat.IsSymmetric(base, n)
 		ps = append(ps, plan{"hessenberg", pick(product("U", "SetZero=false", "InSitu"), []string{"", "U", "SetZero=false", "U,SetZero=false", "U,InSitu"})})
 		ps = append(ps, plan{"qrAlgorithm", pick(product("U", "Eps", "InSitu"), []string{"", "U", "U,InSitu"})})
-		ps = append(ps, plan{"eigensystem", pick(product("Vec=false", "Eps", "InSitu"), []string{"", "Vec=false", "InSitu"})})
+		ps = append(ps, plan{"eigensystem", pick(append(product("Vec=false", "Eps", "InSitu"), "Buf", "Buf,Vec=false"), []string{"", "Vec=false", "InSitu", "Buf"})})
 		if sym {
 			ps = append(ps, plan{"qrAlgorithm", pick(withTok(product("U", "Eps", "InSitu"), "Sym"), []string{"Sym", "U,Sym", "U,InSitu,Sym"})})
-			ps = append(ps, plan{"eigensystem", pick(withTok(product("Vec=false", "Eps", "InSitu"), "Sym"), []string{"Sym", "Vec=false,Sym", "InSitu,Sym"})})
+			ps = append(ps, plan{"eigensystem", pick(withTok(append(product("Vec=false", "Eps", "InSitu"), "Buf"), "Sym"), []string{"Sym", "Vec=false,Sym", "InSitu,Sym", "Buf,Sym"})})
 			ps = append(ps, plan{"tridiag", pick(product("U", "Eps", "InSitu"), []string{"", "U", "U,InSitu"})})
 			ps = append(ps, plan{"cholesky", []string{"LDL,ForcePD", "LDL,ForcePD,InSitu"}})
 			if lat.IsSPD(base, n) {
@@ -100,6 +100,11 @@ type lattice struct {
 	skip    func(a []int) bool // members already covered by a smaller lattice
 	custom  func(i int64) []int
 	customN int64
+	// families (families.go): power-of-two exponent of the i-th member (entry = integer·2^exp2),
+	// family tag carried in the case, and a routine plan that replaces routinesFor
+	exp2   func(i int64) int
+	family string
+	plans  func(base []int) []plan
 }
 
 func (l lattice) count() int64 {
@@ -159,6 +164,24 @@ func lattices(thorough bool) []lattice {
 			}
 			return a
 		}},
+		// --- families (families.go) ---
+		{name: "3x3spd-wide{diag 1,3,10,30,100; off 0,±1,±3,±10,±30}", r: 3, c: 3, customN: spdWide3Count(), custom: spdWide3, family: "spd-wide",
+			skip: func(a []int) bool { return !lat.IsSPD(a, 3) }, plans: choleskyPlans(true)},
+		{name: "4x4spd D·M·D{M diag 2,3; off 0,1,2; D in {1,10}^4}", r: 4, c: 4, customN: spdDMD4Count([]int{1, 10}), custom: func(i int64) []int { return spdDMD4(i, []int{1, 10}) }, family: "spd-wide",
+			skip: func(a []int) bool { return !lat.IsSPD(a, 4) }, plans: choleskyPlans(false)},
+		{name: "4x3 Läuchli [w;2^-k·I], w in {1,-1,2}^3, k in {10,15,20,25}", r: 4, c: 3, customN: lauchliCount(3), family: "ill-conditioned",
+			custom: func(i int64) []int { a, _ := lauchli(i, 3); return a }, exp2: func(i int64) int { _, e := lauchli(i, 3); return e },
+			skip: illCondSkip(4, 3), plans: illCondPlans},
+		{name: "5x4 Läuchli [w;2^-k·I], w in {1,-1,2}^4, k in {10,15,20,25}", r: 5, c: 4, customN: lauchliCount(4), family: "ill-conditioned",
+			custom: func(i int64) []int { a, _ := lauchli(i, 4); return a }, exp2: func(i int64) int { _, e := lauchli(i, 4); return e },
+			skip: illCondSkip(5, 4), plans: illCondPlans},
+		{name: "3x3 ones+2^-k·C, C over {-1,0,1}, k in {10,20,26}", r: 3, c: 3, customN: lat.Pow(3, 9) * int64(len(parallelK)), family: "ill-conditioned",
+			custom: func(i int64) []int { a, _ := nearlyParallel(i, 3, 3, lat.E3); return a }, exp2: func(i int64) int { _, e := nearlyParallel(i, 3, 3, lat.E3); return e },
+			skip: illCondSkip(3, 3), plans: illCondPlans},
+		{name: "4x3 ones+2^-k·C, C over {0,1}, k in {10,20,26}", r: 4, c: 3, customN: lat.Pow(2, 12) * int64(len(parallelK)), family: "ill-conditioned",
+			custom: func(i int64) []int { a, _ := nearlyParallel(i, 4, 3, lat.E2); return a }, exp2: func(i int64) int { _, e := nearlyParallel(i, 4, 3, lat.E2); return e },
+			skip: illCondSkip(4, 3), plans: illCondPlans},
+		{name: "6x6 block triangular (1x1 and 2x2 diagonal blocks in all orders, ones above / flipped)", r: 6, c: 6, customN: int64(len(blocks6All)), custom: blocks6, family: "blocks6", plans: blocks6Plans},
 	}
 	if thorough {
 		ls = append(ls,
@@ -169,6 +192,24 @@ func lattices(thorough bool) []lattice {
 			lattice{name: "4x2{-2..2}", r: 4, c: 2, E: lat.E5, reduced: true, skip: inE3},
 			lattice{name: "3x3graded{-1,0,1}·diag(1,2^8,2^16)", r: 3, c: 3, E: lat.E3, graded: 8},
 			lattice{name: "3x3{-2..2}", r: 3, c: 3, E: lat.E5, reduced: true, skip: func(a []int) bool { return inE3(a) || lat.IsSymmetric(a, 3) }},
+			lattice{name: "4x4spd D·M·D{M diag 2,3; off 0,1,2; D in {1,10,-10}^4 with a negative entry}", r: 4, c: 4, customN: spdDMD4Count([]int{1, 10, -10}), custom: func(i int64) []int { return spdDMD4(i, []int{1, 10, -10}) }, family: "spd-wide",
+				skip: func(a []int) bool {
+					neg := false
+					for _, v := range a {
+						neg = neg || v < 0
+					}
+					return !neg || !lat.IsSPD(a, 4)
+				}, plans: choleskyPlans(false)},
+			lattice{name: "4x3 ones+2^-k·C, C over {-1,0,1}, k in {10,20,26}", r: 4, c: 3, customN: lat.Pow(3, 12) * int64(len(parallelK)), family: "ill-conditioned",
+				custom: func(i int64) []int { a, _ := nearlyParallel(i, 4, 3, lat.E3); return a }, exp2: func(i int64) int { _, e := nearlyParallel(i, 4, 3, lat.E3); return e },
+				skip: func(a []int) bool {
+					for _, v := range a {
+						if v&((1<<10)-1) == (1<<10)-1 { // an entry 2^k-1: C has a -1, not in the quick family
+							return illCondSkip(4, 3)(a)
+						}
+					}
+					return true
+				}, plans: func([]int) []plan { return []plan{{"gramSchmidt", []string{"", "InSitu"}}} }},
 		)
 	}
 	return ls
@@ -204,6 +245,25 @@ func report(c *vf.Ctx, cs *Case, out *outcome, rank int64) {
 	}
 	if out.mutated {
 		c.Count("input_matrix_modified_by_"+cs.Routine+"(info,C12)", 1)
+	}
+	if cs.Routine == "gramSchmidt" && out.status == "ok" && out.gsCond > 0 {
+		// how much of the conditioning-aware tolerance is used, by decade of the condition number
+		dc := 0
+		for k := out.gsCond; k >= 10; k /= 10 {
+			dc++
+		}
+		b := "<1e-3"
+		switch {
+		case out.gsMargin > 1:
+			b = ">1(violation)"
+		case out.gsMargin > 1e-1:
+			b = "<1"
+		case out.gsMargin > 1e-2:
+			b = "<1e-1"
+		case out.gsMargin > 1e-3:
+			b = "<1e-2"
+		}
+		c.Count(fmt.Sprintf("gramSchmidt_orthogonality_defect/tol%s@cond~1e%d", b, dc), 1)
 	}
 	if out.suffPD && strings.Contains(cs.Opts, "ForcePD") && strings.Contains(cs.Opts, "LDL") {
 		c.Count("forcepd_sufficiently_pd_inputs", 1)
@@ -293,13 +353,23 @@ func run(c *vf.Ctx) {
 				rank += 5000
 			}
 			over := map[string]bool{}
-			for _, p := range routinesFor(base, l.r, l.c, l.graded != 0, l.reduced) {
+			e2 := 0
+			if l.exp2 != nil {
+				e2 = l.exp2(i)
+			}
+			var ps []plan
+			if l.plans != nil {
+				ps = l.plans(base)
+			} else {
+				ps = routinesFor(base, l.r, l.c, l.graded != 0, l.reduced)
+			}
+			for _, p := range ps {
 				if f := os.Getenv("C05_ROUTINE"); f != "" && f != p.routine {
 					continue
 				}
 				for oi, o := range p.opts {
 					for ei, e := range elems {
-						cs := &Case{Routine: p.routine, Opts: o, Elem: e, R: l.r, C: l.c, Base: base, Graded: l.graded}
+						cs := &Case{Routine: p.routine, Opts: o, Elem: e, R: l.r, C: l.c, Base: base, Graded: l.graded, Exp2: e2, Family: l.family}
 						okey := fmt.Sprintf("%s/%v", p.routine, cs.has("Sym"))
 						if over[okey] {
 							// this routine already exceeded the tick budget on this matrix with another
@@ -349,10 +419,15 @@ func main() {
 		Level: "exploration",
 		Rule: "every matrix of the integer lattices (1x1,2x2 over {-2..2}; 3x3 over {-1,0,1} quick / {-2..2} thorough; symmetric 3x3 {-2..2} and 4x4 {-1,0,1} thorough; tall 2x1,3x1,4x1 {-2..2}, 3x2,4x2 {-1,0,1} quick, 3x2,4x2 {-2..2} and 4x3 {-1,0,1} thorough; graded D·A·D⁻¹ thorough) × every routine admissible for it " +
 			"(square/symmetric/SPD by exact integer Sylvester test/full column rank by exact Gram determinant) × every option combination × {Float64,Real64} is executed; " +
+			"families: SPD 3x3 over the wide alphabet (diag 1,3,10,30,100; off-diag 0,±1,±3,±10,±30) and graded SPD 4x4 D·M·D through every Cholesky/LDL/ForcePD option product; ill-conditioned tall matrices (Läuchli [w;2^-k·I] 4x3 and 5x4, ones+2^-k·C 3x3 and 4x3, cond up to 2^34 by an exact Gram-matrix bound) through gramSchmidt/bidiag/svd; " +
+			"6x6 block triangular matrices (all orders of 1x1 and 2x2 diagonal blocks, both orientations) through hessenberg/qrAlgorithm/eigensystem; " +
 			"a case is non-trivial when the routine returned factors and the input did not already have the promised middle-factor structure (diagonal/triangular/bidiagonal/tridiagonal/Hessenberg/identity)",
 		Assume: []string{
 			"tolerance 1e-9·max(1,‖A‖_F) for defining equations; eigenvalues compared with (1e-9)^(1/k)·‖A‖ for a root of exact multiplicity k",
 			"msqrt/msqrtInv are fixed-threshold iterations: residual tolerance 1e-7·‖A‖",
+			"gramSchmidt is modified Gram–Schmidt: ‖QᵀQ−I‖ <= 1e3·u·cond(A) with u=2^-53 and cond(A) <= ‖A‖_F/σ_min from the exact Gram matrix (big integers; Newton from below on its characteristic polynomial); Householder/Givens based routines keep the fixed 1e-8",
+			"ill-conditioned families: members with cond bound > 2^34 or exactly rank deficient are skipped (bounded condition number); singular values are not compared with a reference there",
+			"eigensystem option Buf = caller-allocated Eigenvalues/Eigenvectors result buffers on first use",
 			"eigenvector residuals are checked for every returned value that can only be a real eigenvalue; values that may be the real part of a complex pair are skipped",
 			"graded inputs: backward-error oracles only (reconstruction, orthogonality, residual relative to ‖D·A·D⁻¹‖)",
 			"InSitu buffers are 'stale': they carry the contents of a previous call on a different dense matrix of the same shape (InitializeH/InitializeU set as newton.go does)",
